@@ -91,20 +91,36 @@ def scenario(draw):
 
 
 def judge(sc, obs) -> Result:
+    if sc.get("episodes"):
+        res = Result()
+        for k, ep in enumerate(sc["episodes"]):
+            sub = judge_episode(ep, obs, k)
+            for v in sub.violations:
+                v.message = f"[run {k + 1} of {len(sc['episodes'])} on the same runner instance] " + v.message
+            res.violations += sub.violations
+            res.expensive = res.expensive or sub.expensive
+            if sub.violations:
+                break
+        return res
+    return judge_episode(sc, obs, 0)
+
+
+def judge_episode(sc, obs, k) -> Result:
     res = Result()
     failing = [p for p in sc["payloads"] if p.get("role") == "failing"]
     desc = "; ".join(f"{p['flavour']} {p['end']} via {p.get('regmode')}" for p in failing) + f" [{sc['runner']}, {len(sc['payloads']) - len(failing)} others]"
     if obs.get("worker_error"):
         raise HarnessError("scenario worker failed: " + str(f"{obs['worker_error']} ({desc})"))
-    if obs.get("hang") or not obs.get("episodes"):
+    if obs.get("hang") or len(obs.get("episodes", [])) <= k:
         reached = {**obs.get("injected", {}), **obs.get("returned", {})}
         res.expensive = True
         res.fail("keeps-running", f"the blocking call did not end within {BOUND}s although a failure was injected ({desc}); failures reached: {reached}; "
                  f"ops: {[(o.get('op'), o.get('pid'), o.get('raised')) for o in obs.get('ops', [])]}")
         return res
-    out = obs["episodes"][0]
-    reached_exc = {int(k): v for k, v in obs.get("injected", {}).items()}
-    reached_ret = {int(k) for k in obs.get("returned", {})}
+    out = obs["episodes"][k]
+    mine = {p["id"] for p in failing}
+    reached_exc = {int(i): v for i, v in obs.get("injected", {}).items() if int(i) in mine}
+    reached_ret = {int(i) for i in obs.get("returned", {}) if int(i) in mine}
     by_id = {p["id"]: p for p in failing}
     reached = set(reached_exc) | reached_ret
     kinds = {by_id[i]["kind"] for i in reached if i in by_id}
@@ -158,6 +174,40 @@ def judge(sc, obs) -> Result:
     return res
 
 
+@st.composite
+def rerun(draw):
+    """the same runner instance is run twice: the first run ends by a failure, the second must fail-stop as well"""
+    first = draw(scenario())
+    second = draw(scenario())
+    second["runner"] = first["runner"]
+    second["reuse_runner"] = True
+    # services are process-global and outlive a run (a service of the first run that never got to start would be
+    # adopted by the second): this test uses plain payloads only, registered before start / from outside / from payloads
+    for ep in (first, second):
+        for p in ep["payloads"]:
+            if p["reg"]["how"] == "pre-service":
+                p["reg"] = {"how": "pre"}
+            if p.get("regmode") in ("pre-service", "post-service-outside", "post-service-from"):
+                p["regmode"] = "pre"
+                p["reg"] = {"how": "pre"}
+        ep["payloads"] = [p for p in ep["payloads"] if not (p.get("role") == "parent" and any(i[0] == "service" for i in p["program"]))]
+        ep["drivers"] = [[s for s in d if s["op"] != "service"] for d in ep["drivers"]]
+    first["sigint"] = second["sigint"] = False
+    first["drivers"] = [[s for s in d if s["op"] != "sigint"] for d in first["drivers"]]
+    second["drivers"] = [[s for s in d if s["op"] != "sigint"] for d in second["drivers"]]
+    for p in second["payloads"]:  # distinct ids in the second run
+        p["id"] += 1000
+        if "parent" in p["reg"]:
+            p["reg"]["parent"] += 1000
+        p["program"] = [[i[0], i[1] + 1000] if i[0] in ("adopt", "service") else i for i in p["program"]]
+    for d in second["drivers"]:
+        for s in d:
+            if "pid" in s:
+                s["pid"] += 1000
+    return {"episodes": [first, second], "switchinterval": first["switchinterval"], "bound_s": BOUND, "payloads": first["payloads"] + second["payloads"],
+            "runner": first["runner"], "sigint": False, "rerun": True}
+
+
 def run_case(sc) -> Result:
     obs = run_scenario(sc)
     res = judge(sc, obs)
@@ -207,7 +257,8 @@ def enum_core(shard, nshards):
 
 
 def tests(tier):
-    t = [TestDef("scenarios", run_case, strategy=scenario(), quick=640, thorough=20000, shards_quick=16, shrink_budget=60, slow=True)]
+    t = [TestDef("scenarios", run_case, strategy=scenario(), quick=640, thorough=20000, shards_quick=16, shrink_budget=60, slow=True),
+         TestDef("rerun-same-instance", run_case, strategy=rerun(), quick=96, thorough=3000, shards_quick=16, shrink_budget=30, slow=True)]
     t.append(TestDef("exhaustive-core", run_case, enumerate=enum_core, exhaustive=True, shards_quick=16, shards_thorough=16))
     for td in t:
         td.replay_runs = 10
